@@ -4,7 +4,7 @@ import itertools
 import z3
 from .common import *   # noqa: F401,F403
 from .common import (CONCRETE, prtpy, out, pack_alg, item_vars, numbers, present, named, names_of, zsum, zmax, zmin, zi, zq,
-                     rgs, block_sums, multiset_eq, sub_multiset, item_term, describe, SymNum)
+                     rgs, block_sums, multiset_eq, sub_multiset, item_term, describe, SymNum, ctx_cache)
 from models import reference as ref
 
 PACKERS = ('ff', 'ffd', 'bf', 'bfd', 'bc')
@@ -18,11 +18,15 @@ def fits_in(xs, B, m):
     n = len(xs)
     if m <= 0:
         return z3.BoolVal(n == 0)
-    return z3.Or([z3.And([s <= B for s in block_sums(a, xs, m)]) for a in rgs(n, m)])
+    return ctx_cache(('fits', m, n), lambda: z3.Or([z3.And([s <= B for s in block_sums(a, xs, m)]) for a in rgs(n, m)]))
 
 
 def covers(xs, B, m):
     """some assignment fills m bins to at least B (remaining items unused)"""
+    return ctx_cache(('covers', m, len(xs)), lambda: _covers(xs, B, m))
+
+
+def _covers(xs, B, m):
     n = len(xs)
     if m == 0: return z3.BoolVal(True)
     alts = []
